@@ -784,6 +784,31 @@ func (env *SpecEnv) call(x *ECall) *Val {
 		return mkInt(fx.mapKeyFromLeaves(t, xs), nil)
 	case "structkey":
 		return mkInt(fx.mapKeyTerm(st, arg(0)), nil)
+	case "ranged":
+		// ranged(): the slice a `for ... range <expr>` loop iterates over (it has no name in the source)
+		if env.at.b == nil {
+			return env.fail("ranged() outside a loop invariant")
+		}
+		li := fx.loops[env.at.b]
+		if li == nil {
+			return env.fail("ranged() outside a loop invariant")
+		}
+		for blk := range li.body {
+			for _, ins := range blk.Instrs {
+				if ia, ok := ins.(*ssa.IndexAddr); ok {
+					if _, isSl := ia.X.Type().Underlying().(*types.Slice); isSl {
+						if bo, ok := ia.Index.(*ssa.BinOp); ok {
+							if ph, ok := bo.X.(*ssa.Phi); ok && ph.Block() == env.at.b {
+								if v, ok := st.env[ia.X]; ok {
+									return v
+								}
+							}
+						}
+					}
+				}
+			}
+		}
+		return env.fail("ranged(): no ranged slice found")
 	case "now":
 		// the clock value (ns since the epoch) last read through time.Now / time.Since in this execution
 		return mkInt(st.heapGet("T|now", "Int"), nil)
